@@ -22,6 +22,8 @@ RULE = (
     "convert_angular_sizes_to_degrees, AtomGrid(degrees=|sizes=) and AtomGrid.from_pruned; non-trivial = a sequence "
     "with >= 2 distinct requests of which at least one is not a table entry; distinct = distinct descriptor"
 )
+RULE = RULE + " " + "sequences: a route 'oversize' inserts one element above the method's maximum into a sequence (through the converter, AtomGrid(degrees|sizes) and from_pruned(d_sectors|s_sectors)); it must raise ValueError."
+
 ASSUMPTIONS = [
     "the file names <method>_<degree>_<size>.npz in src/grid/data are the ground truth for what is 'supported'",
     "warnings emitted by the library are ignored",
